@@ -41,11 +41,15 @@ EvalStep(s, ev) ==
   ELSE IF s.algo = "LMNN"
   THEN LET v == LMNNValue(ev.L, s.X, s.y, s.targets, s.reg)
            g == LMNNGrad(ev.L, s.X, s.y, s.targets, s.reg)
+           near == LMNNNearTies(ev.L, s.X, s.y, s.targets)
+           clear == LMNNActiveClear(ev.L, s.X, s.y, s.targets)
        IN R([s EXCEPT !.evals = Append(s.evals, <<ev.L, v>>)],
             G("C10.lmnn_value_is_documented_objective", CloseVal(ev.value, v))
-            \cup G("C10.lmnn_gradient_is_derivative_of_documented_objective", CloseGrad(ev.grad, g))
-            \cup G("C10.lmnn_active_constraint_count", ev.active = LMNNActive(ev.L, s.X, s.y, s.targets)),
-            {"C10.lmnn_value_is_documented_objective", "C10.lmnn_gradient_is_derivative_of_documented_objective"})
+            \* (with a hinge at a near tie the sub-gradient the code takes is decided by rounding: value and count only)
+            \cup (IF near = 0 THEN G("C10.lmnn_gradient_is_derivative_of_documented_objective", CloseGrad(ev.grad, g)) ELSE {})
+            \cup G("C10.lmnn_active_constraint_count", clear <= ev.active /\ ev.active <= clear + near),
+            {"C10.lmnn_value_is_documented_objective"}
+            \cup (IF near = 0 THEN {"C10.lmnn_gradient_is_derivative_of_documented_objective"} ELSE {"X10.hinge_near_tie"}))
   ELSE IF ~SoftmaxWitnessOK(ev.L, s.X, ev.P, ev.a, ev.e, ev.Z)
        THEN R([s EXCEPT !.evals = Append(s.evals, <<ev.L, <<2, 0, <<>>>>>>)], {}, {"X10.softmax_witness_rejected"})
   ELSE IF s.algo = "NCA"
